@@ -861,6 +861,10 @@ def _escaped(j):
     for blk in j["blocks"]:
         for s in blk["s"]:
             if s["k"] == "assign" and s["r"]["k"] in ("ref", "rawptr") and (s["r"].get("m") == "mut" or s["r"]["k"] == "rawptr"):
+                # `&raw const (*_t.0)` (the length of a slice held in a tuple slot) points at what the slot refers to,
+                # not at the local: only a borrow of the local's own storage lets it change behind the analysis
+                if any(q == "*" or q == "deref" for q in s["r"]["p"]["pr"]) and s["r"]["k"] == "rawptr" and s["r"].get("m") != "mut":
+                    continue
                 esc.add(s["r"]["p"]["l"])
     return esc
 
